@@ -16,7 +16,7 @@ TAGS = {
     "C04": ("C04_", "C07_NilNotInstalled", "C07_ErrMismatch", "C02_"),
     "C05": ("C05_", "C02_"),
     "C06": ("C06_",),
-    "C07": ("C07_", "C08_Hang"),
+    "C07": ("C07_", "C08_Hang", "C08_Anomaly"),
     "C08": ("C08_",),
     "C09": ("C09_",),
 }
@@ -64,6 +64,10 @@ def gen_scenario(rng, family, idx, mode):
           "pcancel": 0.0, "cancelok": []}
     if family in ("C04", "C09", "C08"):
         sc["skip"] = rng.random() < 0.25
+    if family == "C07" and rng.random() < 0.25:
+        # blocking reports while verification is delayed (with and without the suppress option): rejections must still be answered
+        sc["delay"] = True
+        sc["suppress"] = rng.random() < 0.6
     if family == "C09" or (family in ("C04", "C08") and rng.random() < 0.3):
         sc["delay"] = rng.random() < (0.8 if family == "C09" else 0.5)
         sc["suppress"] = rng.random() < 0.5
@@ -504,6 +508,13 @@ def run_check(pid, tier, replay=None):
                         rp = C.write_replay(pid, r["id"], {"property": pid, "kind": "delay", "case": dby.get(r["id"]), "mismatches": ms})
                         violations.append(("Delay history %s: %s" % (r["id"], ms[0]["detail"][:220]), rp))
             delay_run = {"histories": len(dcases), "distinct_states": dres.distinct, "mismatching": nbad, "seeded_mistake_breaks_model": True}
+        if pid == "C08":
+            # API calls after shutdown on the Blank wrapper (SetSource / Done after the monitor exited) must fail, not panic
+            from . import wrapcheck
+            bad, n_sel, wstates = wrapcheck.blank_context_cases(vh, scratch, seed, quick, want="panic")
+            for detail, case in bad[:10]:
+                rp = C.write_replay(pid, case["id"], {"property": pid, "kind": "wrap", "case": case, "mismatches": [{"kind": "panic", "detail": detail}]})
+                violations.append(("Blank history %s: %s" % (case["id"], detail[:200]), rp))
         blank_ctx = None
         if pid == "C07":
             # "... and therefore Blank.SetSource": the Blank histories of Wrap.tla with the monitor gone, under a watchdog
@@ -572,7 +583,7 @@ def run_replay(pid, vh, scratch, path):
     if obj.get("kind") == "wrap":
         from . import wrapcheck
         res, crashes = wrapcheck.run_cases(vh, scratch, [obj["case"]], workers=1)
-        bad = crashes or [m for r in res for m in (r.get("mismatches") or []) if m.get("c07")]
+        bad = crashes or [m for r in res for m in (r.get("mismatches") or []) if m.get("c07") or m.get("kind") == "panic"]
         print("replay:", "reproduced" if bad else "not reproduced")
         if bad:
             print("VIOLATION property=%s replay=%s  (reproduced)" % (pid, path))
